@@ -30,6 +30,11 @@ type Enum struct{ Type, Name string }
 // Int is an integer literal of any size.
 type Int struct{ V *big.Int }
 
+// RawLean is a field rendered verbatim in the Lean output (used by the
+// parametrised statements of T1, where a literal becomes a Lean variable). It has
+// no JSON form.
+type RawLean struct{ Src string }
+
 func N(tag string, args ...any) *Node { return &Node{Tag: tag, Args: args} }
 
 func (n *Node) ctor() string {
@@ -108,6 +113,10 @@ func (n *Node) Lean() string {
 }
 
 func (n *Node) lean(sb *strings.Builder, depth int) {
+	if n.Tag == "RawLean" {
+		sb.WriteString(n.Args[0].(string))
+		return
+	}
 	if len(n.Args) == 0 {
 		sb.WriteString(n.Tag)
 		return
@@ -178,8 +187,36 @@ func leanArg(sb *strings.Builder, a any, depth int) {
 		}
 	case Enum:
 		sb.WriteString(x.Type + "." + x.Name)
+	case RawLean:
+		sb.WriteString(x.Src)
 	default:
 		panic(fmt.Sprintf("minisql: unsupported AST field %T", a))
+	}
+}
+
+// Walk calls f on n and every node below it (pre-order); f may modify n.Args.
+func (n *Node) Walk(f func(*Node)) {
+	if n == nil {
+		return
+	}
+	f(n)
+	for _, a := range n.Args {
+		switch x := a.(type) {
+		case *Node:
+			x.Walk(f)
+		case Opt:
+			x.N.Walk(f)
+		case []*Node:
+			for _, c := range x {
+				c.Walk(f)
+			}
+		case [][]*Node:
+			for _, r := range x {
+				for _, c := range r {
+					c.Walk(f)
+				}
+			}
+		}
 	}
 }
 
